@@ -133,6 +133,8 @@ func init() {
 			for i := 0; i < *n; i++ {
 				if *profile == "layout" {
 					cases = append(cases, GenLayoutCase(*seed, i))
+				} else if tc, ok := GenTargeted(*seed, i, *profile); ok && i%2 == 0 {
+					cases = append(cases, tc)
 				} else {
 					cases = append(cases, GenCase(*seed, i, *profile))
 				}
